@@ -12,6 +12,9 @@ import (
 
 // lowerFirst converts field names to the Dart convention
 func lowerFirst(s string) string {
+	if s == "" {
+		return ""
+	}
 	return strings.ToLower(s[0:1]) + s[1:]
 }
 
@@ -103,7 +106,7 @@ func codeForEnum(typ *an.Enum) gen.Declaration {
 		// trim a xxx_ suffix
 		vName := lowerFirst(v.Const.Name())
 		_, after, found := strings.Cut(vName, "_")
-		if found {
+		if found && after != "" {
 			vName = after
 		}
 		names = append(names, lowerFirst(vName))
